@@ -697,6 +697,92 @@ def opHAcc (a : List String) : M String :=
      | _, _, _ => some "bad-op")
   | _ => some "bad-op"
 
+/-! ### decoded values edited and re-used -/
+
+def applyEdit (h : Hdrs) (bucket : String) (entries : GoMap) : Hdrs :=
+  if bucket = "p" then { h with p := entries.foldl (fun acc e => acc.set e.1 e.2) h.p, rawP := none }
+  else { h with u := entries.foldl (fun acc e => acc.set e.1 e.2) h.u, rawU := none }
+
+def opEdit (a : List String) : M String :=
+  match a with
+  | kind :: hexs :: bucket :: ms :: _ =>
+    (match unhexArg hexs, parseAll pMapOrNil ms with
+     | some (some data), some entries =>
+       let fin (o : Out Bytes) : M String :=
+         match o with
+         | .ok enc => (opDec kind enc).map fun d => "dec=ok enc=" ++ hexOfBytes enc ++ " redec=" ++ firstWord d
+         | .err _ => some "dec=ok enc=err"
+         | .panic => some "panic"
+         | .unmodelled => none
+       (match kind with
+        | "s1" =>
+          (match Sign1.unmarshal true data with
+           | .ok m => fin (Sign1.marshal true { m with h := applyEdit m.h bucket entries })
+           | .err _ => some "dec=err" | .panic => some "panic" | .unmodelled => none)
+        | "sig" =>
+          (match Signature.unmarshal data with
+           | .ok s => fin (Signature.marshal { s with h := applyEdit s.h bucket entries })
+           | .err _ => some "dec=err" | .panic => some "panic" | .unmodelled => none)
+        | "sm" =>
+          (match Sign.unmarshal data with
+           | .ok m => fin (Sign.marshal { m with h := applyEdit m.h bucket entries })
+           | .err _ => some "dec=err" | .panic => some "panic" | .unmodelled => none)
+        | _ => some "bad-op")
+     | _, _ => some "bad-op")
+  | _ => some "bad-op"
+
+def opResign (a : List String) : M String :=
+  match a with
+  | tag :: hexs :: exts :: sspec :: _ =>
+    (match unhexArg hexs, unhexArg exts, mkSigner sspec with
+     | some (some data), some ext, some s =>
+       (match Sign1.unmarshal (tag == "t") data with
+        | .ok m0 => do
+          let m : Sign1Msg := { m0 with sig := none, h := { m0.h with rawP := none } }
+          let r := Sign1.sign m ext s
+          let signC ← clsU r.out
+          let (encS, _) ← encField (Sign1.marshal true r.state)
+          pure ("dec=ok sign=" ++ signC ++ " st=" ++ r.state.dump ++ " tbs=" ++ hexList r.calls ++ " enc=" ++ encS)
+        | .err _ => some "dec=err"
+        | .panic => some "panic"
+        | .unmodelled => none)
+     | _, _, _ => some "bad-op")
+  | _ => some "bad-op"
+
+def xorAt (b : Bytes) (idx xor : Nat) : Bytes :=
+  b.mapIdx fun i x => if i = idx then UInt8.ofNat (x.toNat ^^^ xor) else x
+
+def opVTwice (a : List String) : M String :=
+  match a with
+  | kind :: hexs :: exts :: vs :: idxs :: xors :: _ =>
+    (match unhexArg hexs, unhexArg exts, mapM' mkVerifier (listArg vs), idxs.toNat?, xors.toNat? with
+     | some (some data), some ext, some verifiers, some idx, some xor =>
+       (match kind with
+        | "s1" =>
+          (match verifiers.head?, Sign1.unmarshal true data with
+           | some v, .ok m => do
+             let (r1, c1) := Sign1.verify m ext v
+             let m' : Sign1Msg := { m with h := { m.h with rawP := m.h.rawP.map fun b => xorAt b idx xor } }
+             let (r2, c2) := Sign1.verify m' ext v
+             let a1 ← clsU r1
+             let a2 ← clsU r2
+             pure ("dec=ok ver=" ++ a1 ++ " vtbs=" ++ hexList c1 ++ " ver2=" ++ a2 ++ " vtbs2=" ++ hexList c2)
+           | none, _ => some "bad-op"
+           | _, .err _ => some "dec=err" | _, .panic => some "panic" | _, .unmodelled => none)
+        | "sm" =>
+          (match Sign.unmarshal data with
+           | .ok m => do
+             let (r1, c1) := Sign.verify m ext verifiers
+             let m' : SignMsg := { m with h := { m.h with rawP := m.h.rawP.map fun b => xorAt b idx xor } }
+             let (r2, c2) := Sign.verify m' ext verifiers
+             let a1 ← clsU r1
+             let a2 ← clsU r2
+             pure ("dec=ok ver=" ++ a1 ++ " vtbs=" ++ hexList c1 ++ " ver2=" ++ a2 ++ " vtbs2=" ++ hexList c2)
+           | .err _ => some "dec=err" | .panic => some "panic" | .unmodelled => none)
+        | _ => some "bad-op")
+     | _, _, _, _, _ => some "bad-op")
+  | _ => some "bad-op"
+
 /-! ### dispatch -/
 
 def runLine (line : String) : String :=
@@ -729,6 +815,9 @@ def runLine (line : String) : String :=
     | "hist" :: a => opHist a
     | "use" :: a => opUse a
     | "hacc" :: a => opHAcc a
+    | "edit" :: a => opEdit a
+    | "resign" :: a => opResign a
+    | "vtwice" :: a => opVTwice a
     | _ => some "bad-op"
   match r with
   | some s => s
